@@ -464,7 +464,7 @@ func modMatchers(item, pkg string) []matcher {
 	if strings.HasPrefix(item, "[]") {
 		return []matcher{{exact: "Elem." + sanitize(item[2:])}}
 	}
-	if strings.HasPrefix(item, "F.") || strings.HasPrefix(item, "Elem.") || strings.HasPrefix(item, "Map") || strings.HasPrefix(item, "Cell.") || strings.HasPrefix(item, "G.") {
+	if strings.HasPrefix(item, "F.") || strings.HasPrefix(item, "Elem.") || strings.HasPrefix(item, "Map") || strings.HasPrefix(item, "Cell.") || strings.HasPrefix(item, "G.") || strings.HasPrefix(item, "Enc.") {
 		if strings.HasSuffix(item, "*") {
 			return []matcher{{prefix: strings.TrimSuffix(item, "*")}}
 		}
